@@ -47,8 +47,8 @@ def jobs(tier):
         for dep in ('name', 'name_ver', 'two', 'subst'):
             js.append(dict(name='nested_%d_%s' % (na, dep), kind='nested', na=na, dep=dep))
     js.append(dict(name='ptr', kind='ptr'))
-    for ls in itertools.product((0, 1, 2), repeat=2):
-        js.append(dict(name='embedded_%d%d' % ls, kind='embedded', ls=ls))
+    for ls in itertools.product((0, 1, 2), repeat=3):
+        js.append(dict(name='embedded_%d%d%d' % ls, kind='embedded', ls=ls))
     return js
 
 
@@ -120,9 +120,9 @@ def run_job(env, job):
             nm = text_leaf('n', 1, assume)
             rs.append(run_harness(env, PKG, 'VerifC09Ptr', [nm, isnil, mkstr('1.0-1')], assume, unwind=200, sample='pointer field, nil=%s' % isnil))
         return merge_results(rs)
-    l1, l2 = job['ls']
-    xa, known, xb, other, newk = text_leaf('xa', 1, assume), text_leaf('k', max(l1, 1), assume), text_leaf('xb', 2, assume), text_leaf('o', 1, assume), text_leaf('nk', l2, assume)
-    return run_harness(env, PKG, 'VerifC09Embedded', [xa, known, xb, other, newk], assume, unwind=200, sample='embedded paragraph: known field of length %d replaced by one of length %d' % (max(l1, 1), l2))
+    l1, l2, l3 = job['ls']
+    xa, known, xb, other, newk, newo = text_leaf('xa', 1, assume), text_leaf('k', max(l1, 1), assume), text_leaf('xb', 2, assume), text_leaf('o', 1, assume), text_leaf('nk', l2, assume), text_leaf('no', l3, assume)
+    return run_harness(env, PKG, 'VerifC09Embedded', [xa, known, xb, other, newk, newo], assume, unwind=200, sample='embedded paragraph: known field of length %d replaced by one of length %d, renamed field replaced by one of length %d' % (max(l1, 1), l2, l3))
 
 
 def validation_calls(env, seed):
@@ -133,7 +133,7 @@ def validation_calls(env, seed):
     calls += [('VerifC09Lists', [2, 1, 3, b'a', b'bb', b'', b'c', b'', b'', b'x', b'y', b'z']), ('VerifC09Lists', [0, 0, 0, b'', b'', b'', b'', b'', b'', b'', b'', b''])]
     calls += [('VerifC09Nested', [b'1.0', b'foo (>= 1.0), bar | ${x}', b'amd64', 2, b'linux-any', b'all'])]
     calls += [('VerifC09Ptr', [b'n', True, b'1']), ('VerifC09Ptr', [b'n', False, b'1:2-3'])]
-    calls += [('VerifC09Embedded', [b'1', b'k', b'2', b'o', b'n']), ('VerifC09Embedded', [b'1', b'k', b'2', b'o', b''])]
+    calls += [('VerifC09Embedded', [b'1', b'k', b'2', b'o', b'n', b'p']), ('VerifC09Embedded', [b'1', b'k', b'2', b'o', b'', b''])]
     return calls
 
 
